@@ -22,7 +22,11 @@ BOUND = ("dimension 1..3; K=2..3 classes labelled 0..K-1 (Gaussian blobs, well s
          "(minimum_level 1, maximum_level 2..3, max_evaluations 20..80, reuse_old_values/rebalancing on/off); then a sequence of <= 5 operations from "
          "__call__ / test_data with 1..10 fresh samples that lie inside the learned range (incl. exact extreme samples), partly outside or entirely "
          "outside (>= 2% of the extent beyond the range), with and without unlabelled samples (every test_data call with a sample inside has at least "
-         "one labelled sample inside), __call__ on get_learning_data(), evaluate(); at the end all earlier __call__ data are evaluated again. Every class "
+         "one labelled sample inside), __call__ on get_learning_data(), evaluate() (queried twice), "
+         "continue_dimension_wise_refinement (dimension-wise objects; max_evaluations 60..400) after which the stored test classes, evaluate() and all earlier __call__ data are "
+         "re-evaluated against the refined estimators, a second differently configured Classification object built, trained and used in between; at the end all earlier __call__ "
+         "data are evaluated again and every DataSet / summary / class array handed out earlier is compared with a copy taken when it was returned. Anchor cases: 5000/4500-sample "
+         "queries, standard learning up to level 8 (component grids > 200 points). Every class "
          "occurs in the learning part (by construction); query DataSets are always fresh, unscaled objects")
 RULE = BOUND + "; one case = (data seed, configuration, operation list with their seeds); non-trivial = learning completed and at least one operation ran"
 CLAUSES = {
@@ -31,14 +35,17 @@ CLAUSES = {
                      "exactly the labelled raw samples inside the range at position (x-min)*0.99/extent+0.005 with their labels; every DataSet returned by __call__ and "
                      "all testing data stored later hold the samples at that same position (abs 1e-9)",
     "B.class.argmax": "density object k (get_density_estimation_results()) was estimated from exactly the learning samples labelled k; every class returned by __call__, appended by test_data or computed for the initial test split is an index k in range(K) whose density object "
-                      "get_density_estimation_results()[0][k], evaluated alone at the single oracle position of that sample, is maximal up to 1e-9*(1+max|density|)",
+                      "get_density_estimation_results()[0][k], evaluated alone (first three points singly, the others as one reversed batch) at the oracle positions, is maximal up to 1e-9*(1+max|density|)",
     "B.range.removed": "__call__/test_data keep exactly the samples inside the learned range, in order (the returned set / the appended classes cover these and no others); "
                        "if no sample is inside they raise ValueError and assign nothing",
     "B.range.reported": "when some but not all samples are outside, the call writes a message about the removal (contains 'remov' or 'out of bounds') to stdout or the 'util' logger",
     "B.test.summary": "test_data returns Total == number of labelled samples inside the range (unlabelled ones are set aside), Wrong == number of appended classes that differ "
-                      "from the true labels, Percentage correct == 1-Wrong/Total (1e-12); evaluate() reports the same three numbers for all testing data accumulated so far",
+                      "from the true labels, Percentage correct == 1-Wrong/Total (1e-12); evaluate() reports the same three numbers for all testing data accumulated so far, "
+                      "also after a continued refinement, and gives the same answer when queried twice",
     "B.history.stable": "after every operation the previously calculated test classes are an unchanged prefix of get_calculated_classes_testset(); evaluating earlier __call__ "
-                        "data again returns the same classes and the per-class densities at the earlier positions are unchanged (1e-12)",
+                        "data again returns the same classes and the per-class densities at the earlier positions are unchanged (1e-12) unless the estimators were refined in between "
+                        "(then B.class.argmax is re-evaluated against the refined estimators instead); DataSets, summaries and class arrays handed to the caller earlier still equal "
+                        "the copies taken when they were returned",
     "B.history.bookkeeping": "after test_data, get_testing_data() holds the initial test split followed by all labelled inside samples tested so far (same length as the calculated "
                              "classes), get_omitted_data() holds all unlabelled samples set aside so far, and evaluate() works on exactly these",
 }
@@ -164,7 +171,7 @@ def make_queries(op, case, X, y, centres, lo, hi):
 
 # ------------------------------------------------------------------------------------------- oracle pieces
 def densities(cls_obj, P):
-    """per-class density objects evaluated independently, one point at a time"""
+    """per-class density objects evaluated independently of Classification: each class object alone, first points singly, the others in reversed order"""
     combis = cls_obj.get_density_estimation_results()[0]
     D = np.zeros((len(P), len(combis)))
     with capture():
@@ -173,9 +180,13 @@ def densities(cls_obj, P):
                 for k, cb in enumerate(combis):
                     D[a:a + 97, k] = np.asarray(cb(np.array(P[a:a + 97], dtype=float))).ravel()
             return D
-        for i in range(len(P)):
+        for i in range(min(3, len(P))):                      # the first three points one at a time
             for k, cb in enumerate(combis):
                 D[i, k] = float(np.asarray(cb(np.array([P[i]], dtype=float))).ravel()[0])
+        if len(P) > 3:                                       # the rest in one call per class, in REVERSED order (never the array the library saw)
+            R = np.array(P[3:][::-1], dtype=float)
+            for k, cb in enumerate(combis):
+                D[3:, k] = np.asarray(cb(R.copy())).ravel()[::-1]
     return D
 
 
